@@ -386,6 +386,27 @@ fn xform<S: Sc>(case: &Case, ck: &mut Ck<S>) {
         v3(Transform::<Point3<S>>::transform_vector(&a, vv)),
         [v[0] * ns[0], v[1] * ns[1], v[2] * ns[2]],
     );
+    // concat of two general (non-commuting) matrices, through each Transform impl
+    {
+        let g1: M<S, 3> = [t, ns, p];
+        let g2: M<S, 3> = [v, [s, t[1], ns[2]], [p[2], v[0], t[0]]];
+        let (x, y) = (mk_m3(g1), mk_m3(g2));
+        ck.eqm("M3(3-D) concat = x*y", m3(Transform::<Point3<S>>::concat(&x, &y)), mmul(g1, g2));
+        ck.eqm("M3(2-D) concat = x*y", m3(Transform::<Point2<S>>::concat(&x, &y)), mmul(g1, g2));
+        ck.eqv(
+            "M3(3-D) concat(x,y)(v) = x(y(v))",
+            v3(Transform::<Point3<S>>::transform_vector(&Transform::<Point3<S>>::concat(&x, &y), vv)),
+            mvec(g1, mvec(g2, v)),
+        );
+        let h1 = embed34(g1);
+        let mut h2 = embed34(g2);
+        h2[3][0] = t[2];
+        h2[3][1] = p[0];
+        h2[3][2] = v[1];
+        let (x4, y4) = (mk_m4(h1), mk_m4(h2));
+        ck.eqm("M4 concat = x*y", m4(Transform::<Point3<S>>::concat(&x4, &y4)), mmul(h1, h2));
+        ck.eqm("M4 concat(y,x) = y*x", m4(Transform::<Point3<S>>::concat(&y4, &x4)), mmul(h2, h1));
+    }
     let k = Matrix3::from_value(s);
     ck.eqv(
         "M3 from_value vector",
